@@ -427,6 +427,17 @@ PointInv(res) == LET o == Obs(res) IN
   /\ \A j \in 1..Len(o.fields) : ~o.fields[j].bad /\ Len(o.fields[j].k) > 0
   /\ SortedUnique(o.tags)
 
+\* the same with the tag order the code actually guarantees: scanKey sorts and de-duplicates by the *escaped* keys
+\* (finding F18: the raw keys of such a point can be out of order)
+RECURSIVE SortedUniqueEsc(_)
+SortedUniqueEsc(tags) == IF Len(tags) < 2 THEN TRUE
+                         ELSE Cmp(EscapeTag(tags[1].k), EscapeTag(tags[2].k)) < 0 /\ SortedUniqueEsc(Tail(tags))
+PointInvEsc(res) == LET o == Obs(res) IN
+  /\ Len(o.name) > 0
+  /\ Len(o.fields) > 0
+  /\ \A j \in 1..Len(o.fields) : ~o.fields[j].bad /\ Len(o.fields[j].k) > 0
+  /\ SortedUniqueEsc(o.tags)
+
 \* ------------------------------------------------------------------ expected observation of a C12 input
 \* per line that is not skipped: the observation of the returned point, or <<s, e>> = the offsets in the input of the
 \* text that the error must name (no strings are built here: TLC interns every string it creates, which serialises
@@ -438,12 +449,14 @@ RECURSIVE Reasons(_)
 Reasons(rs) == IF rs = <<>> THEN <<>> ELSE (IF Head(rs).res.ok THEN <<>> ELSE <<Head(rs).res.err>>) \o Reasons(Tail(rs))
 RECURSIVE AllInv(_)
 AllInv(rs) == IF rs = <<>> THEN TRUE ELSE (Head(rs).res.ok => PointInv(Head(rs).res)) /\ AllInv(Tail(rs))
+RECURSIVE AllInvEsc(_)
+AllInvEsc(rs) == IF rs = <<>> THEN TRUE ELSE (Head(rs).res.ok => PointInvEsc(Head(rs).res)) /\ AllInvEsc(Tail(rs))
 RECURSIVE AnyUnmodelled(_)
 AnyUnmodelled(rs) == IF rs = <<>> THEN FALSE ELSE Head(rs).res.err = "unmodelled" \/ AnyUnmodelled(Tail(rs))
 HasSub(b, pat) == \E i \in 1..(Len(b) - Len(pat) + 1) : SubSeq(b, i, i + Len(pat) - 1) = pat
 Expect12(buf) == LET rs == ParseAll(buf) IN
   [out |-> Outcomes(rs), why |-> Reasons(rs), inv |-> AllInv(rs), unmodelled |-> AnyUnmodelled(rs),
-   f9 |-> HasSub(buf, <<BS, BS, EQ>>)]
+   f9 |-> HasSub(buf, <<BS, BS, EQ>>), f18 |-> AllInvEsc(rs) /\ ~AllInv(rs)]
 
 \* ------------------------------------------------------------------ rendering (C11)
 RECURSIVE InsertTag(_, _)
@@ -578,11 +591,19 @@ Assemble(sec, withTag, ts) ==
   sec["M"] \o (IF withTag THEN <<CM>> \o sec["TK"] \o <<EQ>> \o sec["TV"] ELSE <<>>) \o <<SP>> \o sec["FK"] \o <<EQ>> \o sec["FV"]
   \o (IF ts THEN <<SP, C1>> ELSE <<>>)
 Contexts == {<<FALSE, FALSE, FALSE>>, <<FALSE, TRUE, TRUE>>, <<TRUE, FALSE, TRUE>>, <<TRUE, TRUE, FALSE>>}   \* <<heavy, withTag, ts>>
+Rep(t, heavy) == IF heavy THEN HeavySec(t) ELSE SimpleSec(t)
+\* section "TT": two (or three) tags, the last tag key x varies; the tag before it is `a`, the heavy key, or x itself
+\* (duplicate); an optional leading tag `t` makes the pair unsorted-then-duplicate:  M[,t=a],K1=TV,x=TV FK=FV
+TTCases(x) ==
+  {Rep("M", h) \o (IF w3 THEN <<CM, CT, EQ, CA>> ELSE <<>>) \o <<CM>> \o k1 \o <<EQ>> \o Rep("TV", h) \o <<CM>> \o x \o <<EQ>> \o Rep("TV", h)
+     \o <<SP>> \o Rep("FK", h) \o <<EQ>> \o Rep("FV", h) :
+       h \in BOOLEAN, w3 \in BOOLEAN, k1 \in {<<CA>>, HeavySec("TK"), x}}
 SecCases(s, x) ==      \* x: raw text of the varying section s
-  {Assemble([t \in Secs |-> IF t = s THEN x ELSE IF c[1] THEN HeavySec(t) ELSE SimpleSec(t)], c[2] \/ s \in {"TK", "TV"}, c[3]) :
-      c \in Contexts}
-InitB == mode \in Secs /\ line \in SeqsUpTo(Sigma, 1) /\ inp = None /\ exp = None      \* root: section and first character
-GenSection == /\ exp = None /\ mode \in Secs
+  IF s = "TT" THEN TTCases(x)
+  ELSE {Assemble([t \in Secs |-> IF t = s THEN x ELSE Rep(t, c[1])], c[2] \/ s \in {"TK", "TV"}, c[3]) : c \in Contexts}
+SecsAll == Secs \cup {"TT"}
+InitB == mode \in SecsAll /\ line \in SeqsUpTo(Sigma, 1) /\ inp = None /\ exp = None      \* root: section and first character
+GenSection == /\ exp = None /\ mode \in SecsAll
               /\ \E x \in {y \in SeqsUpTo(Sigma, IF mode = "FV" THEN ValLen ELSE SecLen) :
                              IF line = <<>> THEN y = <<>> ELSE y # <<>> /\ y[1] = line[1]} :
                    \E l \in SecCases(mode, x) : inp' = l /\ exp' = Expect12(l)
@@ -646,11 +667,13 @@ GenTime == /\ exp = None /\ mode = "P"
 NextP == GenPad \/ GenTime
 
 \* C12 on the model
-NoUnmodelled == (mode \in ({"A", "C"} \cup Secs) /\ exp # None) => ~exp.unmodelled
+NoUnmodelled == (mode \in ({"A", "C"} \cup SecsAll) /\ exp # None) => ~exp.unmodelled
 \* every accepted line yields a point that satisfies the point invariants.  (Before the repair of F9 this held only
 \* outside the class exp.f9 - a doubled backslash directly before '=' - where scanFields and the field iterator tokenised
 \* the section differently; exp.f9 is still exported so that the driver can name the class.)
-AcceptedPointsWellFormed == (mode \in ({"A", "C"} \cup Secs) /\ exp # None) => exp.inv
+\* Exception, finding F18: exp.f18 = the only failing invariant is the order of the raw tag keys of a point whose tags are
+\* strictly sorted by their escaped keys.
+AcceptedPointsWellFormed == (mode \in ({"A", "C"} \cup SecsAll) /\ exp # None) => (exp.inv \/ exp.f18)
 
 \* all C12 generators in one run (one JVM start, one dump)
 Init12 == InitA \/ InitB \/ InitC \/ InitP
